@@ -191,7 +191,7 @@ def _verdict(prop, pid, tier, seed, cfg, nshards, merged, vios, known, wall, qui
         status = 'violated'
     else:
         for ft in merged['fatal']:
-            reasons.append(f'{ft["kind"]}: {ft["why"]}')
+            reasons.append(f'{ft["kind"]}: ...{ft["why"][-700:]}')
         if merged['inconclusive']:
             reasons.append(f'{len(merged["inconclusive"])} case(s) inconclusive, first: '
                            f'{merged["inconclusive"][0]["status"]}: {util.short(merged["inconclusive"][0]["why"], 1500)}')
